@@ -38,6 +38,10 @@ add("C20", "vsched", "exhaustive (unbounded) exploration of all interleavings of
     "The real cache.go under the controlled scheduler: 2-3 threads x 1-2 once() calls over two keys x succeeding/failing callables with a scheduling point inside the callable; all interleavings without preemption bound; oracle: <=1 successful invocation per key, identical value for all callers, failures cache nothing, no deadlock.",
     SCHED_NOTE, "DESIGN.md section 5 C20")
 
+add("C07", "enum", "bounded-exhaustive enumeration of values through the real encoder/decoder (and a batch-size-3 clone) vs a structural-isomorphism oracle",
+    "Every integer in [-70000,70000] (thorough: +-2^21) and around 2^31/2^32/2^63/2^64, float classes, strings/bytes at every length class x 6 content classes, all containers of 0-3 (thorough 0-4) elements over 12 leaves nested to depth 2 (3), batch boundaries flat/self-containing/nested at 15 host positions for the real batch size 1000 and for a build-time clone of the package with batch size 3, and all 4096 aliasing graphs over 3 mutable containers per kind combination are encoded and decoded by the real codec; the result must be isomorphic to the input in Go type, structure, contents and sharing of mutable containers.",
+    "Trusts the isomorphism oracle (90 lines). Sharing of tuples/scalars is unobservable in Starlark and not compared. The clone differs from /repo/pickle only in the literal 1000 -> 3 (vtool -clone).", "DESIGN.md section 5 C07")
+
 NA = {
 }
 for i in range(1, 21):
